@@ -1,7 +1,12 @@
 #!/bin/sh
-# builds the vf engine offline from files on disk only
+# builds the vf engine offline from files on disk only, then validates the translator on concrete
+# vectors (the repository's own test inputs and one vector per Go->SMT rule)
 set -e
 export GOFLAGS=-mod=mod GOPROXY=off GOSUMDB=off GOTOOLCHAIN=local
-cd /verif/engine 2>/dev/null || exit 0
+cd /verif/engine
 mkdir -p /verif/bin
 go build -o /verif/bin/vf ./cmd/vf
+cd /verif
+./bin/vf check SELF > /tmp/vf-selftest.log 2>&1 || { cat /tmp/vf-selftest.log; echo "vf selftest failed"; exit 1; }
+rm -f /verif/evidence/SELF.json
+echo "vf built, selftest ok"
